@@ -24,7 +24,7 @@ pub struct LongCfg {
 
 pub fn draw(seed: u64, thorough: bool, pagesize: u64) -> LongCfg {
     let mut r = Rng::new(mix(seed, 0x10A6));
-    let txs = if thorough { *r.pick(&[1000u32, 2000, 3000]) } else { *r.pick(&[200u32, 300, 400]) };
+    let txs = if thorough { *r.pick(&[1000u32, 2000, 3000]) } else { *r.pick(&[300u32, 450, 600]) };
     let reader = r.chance(1, 3);
     let from = r.range(txs as u64 / 10, txs as u64 / 3) as u32;
     LongCfg {
@@ -194,7 +194,7 @@ fn run(case: &Case, dir: &str) -> Verdict {
     };
     let ps = case.pagesize;
     // a reader and a growing writer on one thread self-deadlock: start big when one is held
-    let np = if lc.reader_to > 0 { (16 * 1024 * 1024 / ps) as usize } else { case.num_pages };
+    let np = if lc.reader_to > 0 { (256 * 1024 * 1024 / ps) as usize } else { case.num_pages };
     let mut v = Verdict::default();
     v.extra_out = json!({"long": {"workload": lc.workload, "txs": lc.txs, "keys": lc.keys, "vsize": lc.vsize,
         "reopen_every": lc.reopen_every, "reader_from": lc.reader_from, "reader_to": lc.reader_to}});
@@ -245,6 +245,16 @@ fn run(case: &Case, dir: &str) -> Verdict {
                     }
                     drop(tx);
                     hwm_at_reader_close = Some((t, samples.last().map(|s| s.hwm).unwrap_or(0)));
+                }
+            }
+            if reader.is_some() {
+                // growing the file while this thread holds a reader would block forever on the
+                // map lock (documented misuse): stop before a commit could need to grow
+                if let Some(s) = samples.last() {
+                    if (s.hwm + 4096) * ps + (8 << 20) > s.file_len {
+                        v.skipped = Some("the file would have to grow while the pinned reader is open".into());
+                        return v;
+                    }
                 }
             }
             let mut m2 = model.clone();
@@ -365,7 +375,8 @@ fn run(case: &Case, dir: &str) -> Verdict {
         let mid = lo + (hi - lo) / 2;
         let first = samples[lo..mid].iter().map(|s| s.hwm).max().unwrap_or(0).max(before);
         let second = samples[mid..hi].iter().map(|s| s.hwm).max().unwrap_or(0);
-        let slack = 2 + max_live / 2;
+        // fragmentation of multi-page runs converges slowly; a leak grows without end
+        let slack = 8 + 2 * max_live;
         if second > first + slack {
             v.violation = Some(fail(
                 "growth",
